@@ -166,7 +166,9 @@ def extent(cdc, c):
 
     r = walk(list(c.raw['members']), {})
     if info(c).compressed:
-        r = (4, INF)
+        # u32 decompressed size, then a zlib stream of the payload; nothing follows an empty payload, and
+        # the shortest zlib stream of a non-empty payload is 9 bytes (2 header + 3 block + 4 adler)
+        r = (4 if r[0] == 0 else 4 + 9, INF)
     _cache[k] = r
     return r
 
